@@ -44,12 +44,13 @@ VARIABLES
   hState,      \* "idle" | "running" | "returned"
   hStatus,     \* [st, code, ctxerr] of the handler's return, or NoStatus
   cTerm,       \* first terminal result seen by the client, or NoRes
-  winddown     \* the harness has started tearing the call down
+  winddown,    \* the harness has started tearing the call down
+  hSawEOF      \* the handler has read the request stream to its end
 
 vars == <<kind, tr, reqMd, cctx, fault, cSendStarted, cSendOk, closeSend,
           hRecvd, hRecvStarted, hSendStarted, hSendOk, cRecvd, cRecvStarted,
           cHdrStarted, hdrAcc, hdrSent, hdrCand, hPend, trlAcc, hState,
-          hStatus, cTerm, winddown>>
+          hStatus, cTerm, winddown, hSawEOF>>
 
 K == 1   \* buffered messages per direction allowed by C20
 
@@ -75,7 +76,7 @@ InitH(k, t, md, hs) ==
   /\ cRecvd = <<>> /\ cRecvStarted = 0 /\ cHdrStarted = 0
   /\ hdrAcc = <<>> /\ hdrSent = "no" /\ hdrCand = {} /\ hPend = <<>>
   /\ trlAcc = <<>> /\ hState = hs /\ hStatus = NoStatus
-  /\ cTerm = NoRes /\ winddown = FALSE
+  /\ cTerm = NoRes /\ winddown = FALSE /\ hSawEOF = FALSE
 
 Init0(k, t, md) == InitH(k, t, md, "idle")
 
@@ -88,7 +89,7 @@ Reset(k, t, md) ==
   /\ cRecvd' = <<>> /\ cRecvStarted' = 0 /\ cHdrStarted' = 0
   /\ hdrAcc' = <<>> /\ hdrSent' = "no" /\ hdrCand' = {} /\ hPend' = <<>>
   /\ trlAcc' = <<>> /\ hState' = "idle" /\ hStatus' = NoStatus
-  /\ cTerm' = NoRes /\ winddown' = FALSE
+  /\ cTerm' = NoRes /\ winddown' = FALSE /\ hSawEOF' = FALSE
 
 -----------------------------------------------------------------------------
 (* Derived notions used by several properties *)
@@ -172,21 +173,21 @@ Ev_Cancel(why) ==
   /\ UNCHANGED <<kind, tr, reqMd, fault, cSendStarted, cSendOk, closeSend,
           hRecvd, hRecvStarted, hSendStarted, hSendOk, cRecvd, cRecvStarted,
           cHdrStarted, hdrAcc, hdrSent, hdrCand, hPend, trlAcc, hState,
-          hStatus, cTerm, winddown>>
+          hStatus, cTerm, winddown, hSawEOF>>
 
 Ev_Winddown ==
   /\ winddown' = TRUE
   /\ UNCHANGED <<kind, tr, reqMd, cctx, fault, cSendStarted, cSendOk, closeSend,
           hRecvd, hRecvStarted, hSendStarted, hSendOk, cRecvd, cRecvStarted,
           cHdrStarted, hdrAcc, hdrSent, hdrCand, hPend, trlAcc, hState,
-          hStatus, cTerm>>
+          hStatus, cTerm, hSawEOF>>
 
 Ev_Fault ==
   /\ fault' = TRUE
   /\ UNCHANGED <<kind, tr, reqMd, cctx, cSendStarted, cSendOk, closeSend,
           hRecvd, hRecvStarted, hSendStarted, hSendOk, cRecvd, cRecvStarted,
           cHdrStarted, hdrAcc, hdrSent, hdrCand, hPend, trlAcc, hState,
-          hStatus, cTerm, winddown>>
+          hStatus, cTerm, winddown, hSawEOF>>
 
 (* ---- client, unary ---- *)
 Ev_CInvokeCall ==
@@ -194,7 +195,7 @@ Ev_CInvokeCall ==
   /\ cRecvStarted' = 1
   /\ UNCHANGED <<kind, tr, reqMd, cctx, fault, hRecvd, hRecvStarted,
           hSendStarted, hSendOk, cRecvd, cHdrStarted, hdrAcc, hdrSent,
-          hdrCand, hPend, trlAcc, hState, hStatus, cTerm, winddown>>
+          hdrCand, hPend, trlAcc, hState, hStatus, cTerm, winddown, hSawEOF>>
 
 Chk_CInvokeRet(res, msg, hdr, trl) ==
   ChkTerminal(res, IF res.k = "nil" THEN 1 ELSE 0, IF res.k = "nil" THEN {msg} ELSE {})
@@ -209,7 +210,7 @@ Ev_CInvokeRet(res, msg) ==
   /\ UNCHANGED <<kind, tr, reqMd, cctx, fault, cSendStarted, cSendOk, closeSend,
           hRecvd, hRecvStarted, hSendStarted, hSendOk, cRecvStarted,
           cHdrStarted, hdrAcc, hdrSent, hdrCand, hPend, trlAcc, hState,
-          hStatus, winddown>>
+          hStatus, winddown, hSawEOF>>
 
 (* ---- client, streams ---- *)
 Chk_CNewStreamRet(res) ==
@@ -221,14 +222,14 @@ Ev_CNewStreamRet(res) ==
   /\ UNCHANGED <<kind, tr, reqMd, cctx, fault, cSendStarted, cSendOk, closeSend,
           hRecvd, hRecvStarted, hSendStarted, hSendOk, cRecvd, cRecvStarted,
           cHdrStarted, hdrAcc, hdrSent, hdrCand, hPend, trlAcc, hState,
-          hStatus, winddown>>
+          hStatus, winddown, hSawEOF>>
 
 Ev_CSendCall(k) ==
   /\ cSendStarted' = k
   /\ UNCHANGED <<kind, tr, reqMd, cctx, fault, cSendOk, closeSend,
           hRecvd, hRecvStarted, hSendStarted, hSendOk, cRecvd, cRecvStarted,
           cHdrStarted, hdrAcc, hdrSent, hdrCand, hPend, trlAcc, hState,
-          hStatus, cTerm, winddown>>
+          hStatus, cTerm, winddown, hSawEOF>>
 
 \* C05: once the handler has finished sends return nil or io.EOF; while the
 \* call is healthy a send never fails.  C20: at most K requests ahead of the
@@ -246,21 +247,21 @@ Ev_CSendRet(k, res) ==
   /\ UNCHANGED <<kind, tr, reqMd, cctx, fault, cSendStarted, closeSend,
           hRecvd, hRecvStarted, hSendStarted, hSendOk, cRecvd, cRecvStarted,
           cHdrStarted, hdrAcc, hdrSent, hdrCand, hPend, trlAcc, hState,
-          hStatus, cTerm, winddown>>
+          hStatus, cTerm, winddown, hSawEOF>>
 
 Ev_CCloseSendCall ==
   /\ closeSend' = TRUE
   /\ UNCHANGED <<kind, tr, reqMd, cctx, fault, cSendStarted, cSendOk,
           hRecvd, hRecvStarted, hSendStarted, hSendOk, cRecvd, cRecvStarted,
           cHdrStarted, hdrAcc, hdrSent, hdrCand, hPend, trlAcc, hState,
-          hStatus, cTerm, winddown>>
+          hStatus, cTerm, winddown, hSawEOF>>
 
 Ev_CRecvCall ==
   /\ cRecvStarted' = cRecvStarted + 1
   /\ UNCHANGED <<kind, tr, reqMd, cctx, fault, cSendStarted, cSendOk, closeSend,
           hRecvd, hRecvStarted, hSendStarted, hSendOk, cRecvd,
           cHdrStarted, hdrAcc, hdrSent, hdrCand, hPend, trlAcc, hState,
-          hStatus, cTerm, winddown>>
+          hStatus, cTerm, winddown, hSawEOF>>
 
 \* a message obtained by the client (C01)
 ChkClientMsg(msg) ==
@@ -281,14 +282,14 @@ Ev_CRecvRet(res, msg) ==
   /\ UNCHANGED <<kind, tr, reqMd, cctx, fault, cSendStarted, cSendOk, closeSend,
           hRecvd, hRecvStarted, hSendStarted, hSendOk, cRecvStarted,
           cHdrStarted, hdrAcc, hdrSent, hdrCand, hPend, trlAcc, hState,
-          hStatus, winddown>>
+          hStatus, winddown, hSawEOF>>
 
 Ev_CHeaderCall ==
   /\ cHdrStarted' = cHdrStarted + 1
   /\ UNCHANGED <<kind, tr, reqMd, cctx, fault, cSendStarted, cSendOk, closeSend,
           hRecvd, hRecvStarted, hSendStarted, hSendOk, cRecvd, cRecvStarted,
           hdrAcc, hdrSent, hdrCand, hPend, trlAcc, hState,
-          hStatus, cTerm, winddown>>
+          hStatus, cTerm, winddown, hSawEOF>>
 
 \* Header() returning without error while the call is healthy must show one
 \* of the views the handler can have sent; after a successful receive or a
@@ -311,7 +312,7 @@ Ev_HStart ==
   /\ UNCHANGED <<kind, tr, reqMd, cctx, fault, cSendStarted, cSendOk, closeSend,
           hRecvd, hRecvStarted, hSendStarted, hSendOk, cRecvd, cRecvStarted,
           cHdrStarted, hdrAcc, hdrSent, hdrCand, hPend, trlAcc,
-          hStatus, cTerm, winddown>>
+          hStatus, cTerm, winddown, hSawEOF>>
 
 Ev_HRecvCall ==
   /\ hRecvStarted' = hRecvStarted + 1
@@ -319,7 +320,7 @@ Ev_HRecvCall ==
   /\ UNCHANGED <<kind, tr, reqMd, cctx, fault, cSendStarted, cSendOk, closeSend,
           hRecvd, hSendStarted, hSendOk, cRecvd, cRecvStarted,
           cHdrStarted, hdrAcc, hdrSent, hdrCand, trlAcc, hState,
-          hStatus, cTerm, winddown>>
+          hStatus, cTerm, winddown, hSawEOF>>
 
 ChkHandlerMsg(msg) ==
   V(msg # -1, "C01", "cross-talk")
@@ -345,6 +346,7 @@ Chk_HRecvRet(res, msg) ==
 Ev_HRecvRet(res, msg) ==
   /\ hRecvd' = IF res.k = "nil" THEN Append(hRecvd, msg) ELSE hRecvd
   /\ hPend' = <<>>
+  /\ hSawEOF' = (hSawEOF \/ res.k = "eof" \/ (res.k = "nil" /\ ~ReqStream /\ tr = "http"))
   /\ UNCHANGED <<kind, tr, reqMd, cctx, fault, cSendStarted, cSendOk, closeSend,
           hRecvStarted, hSendStarted, hSendOk, cRecvd, cRecvStarted,
           cHdrStarted, hdrAcc, hdrSent, hdrCand, trlAcc, hState,
@@ -367,7 +369,7 @@ Ev_HSendCall(k) ==
   /\ MaybeSend(hdrAcc)
   /\ UNCHANGED <<kind, tr, reqMd, cctx, fault, cSendStarted, cSendOk, closeSend,
           hRecvd, hRecvStarted, hSendOk, cRecvd, cRecvStarted,
-          cHdrStarted, hdrAcc, trlAcc, hState, hStatus, cTerm, winddown>>
+          cHdrStarted, hdrAcc, trlAcc, hState, hStatus, cTerm, winddown, hSawEOF>>
 
 \* C20: responses whose send returned, against what the client can have
 \* consumed: one data frame per receive operation (two for single-response
@@ -387,14 +389,14 @@ Ev_HSendRet(k, res) ==
   /\ hPend' = <<>>
   /\ UNCHANGED <<kind, tr, reqMd, cctx, fault, cSendStarted, cSendOk, closeSend,
           hRecvd, hRecvStarted, hSendStarted, cRecvd, cRecvStarted,
-          cHdrStarted, hdrAcc, trlAcc, hState, hStatus, cTerm, winddown>>
+          cHdrStarted, hdrAcc, trlAcc, hState, hStatus, cTerm, winddown, hSawEOF>>
 
 Ev_HSetHeaderCall(i) ==
   /\ hPend' = <<"sethdr", i, hdrSent>>
   /\ UNCHANGED <<kind, tr, reqMd, cctx, fault, cSendStarted, cSendOk, closeSend,
           hRecvd, hRecvStarted, hSendStarted, hSendOk, cRecvd, cRecvStarted,
           cHdrStarted, hdrAcc, hdrSent, hdrCand, trlAcc, hState,
-          hStatus, cTerm, winddown>>
+          hStatus, cTerm, winddown, hSawEOF>>
 
 Chk_HSetHeaderRet(i, ok) ==
   IF ok THEN V(hdrSent # "yes", "C03", "setheader-accepted-after-headers-sent")
@@ -406,14 +408,14 @@ Ev_HSetHeaderRet(i, ok) ==
   /\ hPend' = <<>>
   /\ UNCHANGED <<kind, tr, reqMd, cctx, fault, cSendStarted, cSendOk, closeSend,
           hRecvd, hRecvStarted, hSendStarted, hSendOk, cRecvd, cRecvStarted,
-          cHdrStarted, hdrSent, trlAcc, hState, hStatus, cTerm, winddown>>
+          cHdrStarted, hdrSent, trlAcc, hState, hStatus, cTerm, winddown, hSawEOF>>
 
 Ev_HSendHeaderCall(i) ==
   /\ hPend' = <<"sendhdr", i, hdrSent>>
   /\ MaybeSend(Append(hdrAcc, i))
   /\ UNCHANGED <<kind, tr, reqMd, cctx, fault, cSendStarted, cSendOk, closeSend,
           hRecvd, hRecvStarted, hSendStarted, hSendOk, cRecvd, cRecvStarted,
-          cHdrStarted, hdrAcc, trlAcc, hState, hStatus, cTerm, winddown>>
+          cHdrStarted, hdrAcc, trlAcc, hState, hStatus, cTerm, winddown, hSawEOF>>
 
 Chk_HSendHeaderRet(i, ok) ==
   IF hPend = <<>> THEN {}
@@ -428,7 +430,7 @@ Ev_HSendHeaderRet(i, ok) ==
   /\ hPend' = <<>>
   /\ UNCHANGED <<kind, tr, reqMd, cctx, fault, cSendStarted, cSendOk, closeSend,
           hRecvd, hRecvStarted, hSendStarted, hSendOk, cRecvd, cRecvStarted,
-          cHdrStarted, trlAcc, hState, hStatus, cTerm, winddown>>
+          cHdrStarted, trlAcc, hState, hStatus, cTerm, winddown, hSawEOF>>
 
 \* SendHeader as one atomic step (used by models in which it cannot block)
 Chk_HSendHeaderAtomic(i, ok) ==
@@ -441,14 +443,14 @@ Ev_HSendHeaderAtomic(i, ok) ==
   /\ hPend' = <<>>
   /\ UNCHANGED <<kind, tr, reqMd, cctx, fault, cSendStarted, cSendOk, closeSend,
           hRecvd, hRecvStarted, hSendStarted, hSendOk, cRecvd, cRecvStarted,
-          cHdrStarted, trlAcc, hState, hStatus, cTerm, winddown>>
+          cHdrStarted, trlAcc, hState, hStatus, cTerm, winddown, hSawEOF>>
 
 Ev_HSetTrailerRet(i, ok) ==
   /\ trlAcc' = IF ok THEN Append(trlAcc, i) ELSE trlAcc
   /\ UNCHANGED <<kind, tr, reqMd, cctx, fault, cSendStarted, cSendOk, closeSend,
           hRecvd, hRecvStarted, hSendStarted, hSendOk, cRecvd, cRecvStarted,
           cHdrStarted, hdrAcc, hdrSent, hdrCand, hPend, hState,
-          hStatus, cTerm, winddown>>
+          hStatus, cTerm, winddown, hSawEOF>>
 
 Chk_HSetTrailerRet(i, ok) ==
   V(ok \/ cctx # "live" \/ fault \/ winddown, "C03", "settrailer-refused-while-running")
@@ -464,7 +466,7 @@ Ev_HReturn(st, nresp) ==
   /\ hPend' = <<>>
   /\ UNCHANGED <<kind, tr, reqMd, cctx, fault, cSendStarted, cSendOk, closeSend,
           hRecvd, hRecvStarted, cRecvd, cRecvStarted,
-          cHdrStarted, hdrAcc, trlAcc, cTerm, winddown>>
+          cHdrStarted, hdrAcc, trlAcc, cTerm, winddown, hSawEOF>>
 
 \* C04: the handler waited for its context to end and gave up
 Chk_HCtxWait(done) ==
@@ -477,8 +479,9 @@ Chk_HCtxWait(done) ==
 \* reply only once the request body has ended, so receive-side waits before
 \* CloseSend are the environment's, not the library's.
 EnvExcused(b) ==
-  \/ (tr = "http" /\ ~closeSend /\ b[1] = "c" /\ b[2] \in {"Recv", "Header", "Invoke"})
-  \/ (tr = "http" /\ ~closeSend /\ b[1] = "h" /\ b[2] \in {"Send", "SendHeader"})
+  /\ cctx = "live"
+  /\ \/ (tr = "http" /\ ~closeSend /\ b[1] = "c" /\ b[2] \in {"Recv", "Header", "Invoke"})
+     \/ (tr = "http" /\ ~closeSend /\ b[1] = "h" /\ b[2] \in {"Send", "SendHeader"})
 
 Chk_Quiesce(blocked) ==
   IF cctx = "live" /\ ~HReturned THEN {}
